@@ -291,6 +291,16 @@ void StatusPrinter::BuildStarted() {
 void StatusPrinter::BuildFinished() {
   printer_.SetConsoleLocked(false);
   printer_.PrintOnNewLine("");
+
+  // The plan of this build is gone.  A later build with the same printer
+  // (ninja rebuilds the manifest first and then starts over) adds its own
+  // edges; without this its total would still include the old ones.
+  total_edges_ = 0;
+  eta_predictable_edges_total_ = 0;
+  eta_predictable_edges_remaining_ = 0;
+  eta_unpredictable_edges_remaining_ = 0;
+  eta_predictable_cpu_time_total_millis_ = 0;
+  eta_predictable_cpu_time_remaining_millis_ = 0;
 }
 
 string StatusPrinter::FormatProgressStatus(const char* progress_status_format,
